@@ -17,6 +17,7 @@ pub mod polynomial;
 pub mod tridiagonal;
 pub mod banded;
 pub mod sparse;
+#[cfg(ohsl_verif)] pub mod verif_shim;
 
 // Re-exports
 pub use self::complex::{Complex, Cmplx};
